@@ -28,6 +28,8 @@ enum Inb {
     Query,
     /// `Query<Q2>`: several required fields, declared in an order that is not the alphabetical one
     Query2,
+    /// `Query<Q3>`: field names that also occur as path parameter names (`id`, `p`)
+    Query3,
     Json,
     Form,
     Multipart,
@@ -37,7 +39,7 @@ struct HMeta {
     inbound: Inb,
     responses: &'static [(u16, Option<&'static str>)],
 }
-const CATALOGUE: [HMeta; 18] = [
+const CATALOGUE: [HMeta; 22] = [
     HMeta { params: &[], inbound: Inb::None, responses: &[(200, Some("text/plain"))] },
     HMeta { params: &[], inbound: Inb::None, responses: &[(200, Some("application/json"))] },
     HMeta { params: &["string"], inbound: Inb::None, responses: &[(200, Some("text/plain"))] },
@@ -56,6 +58,13 @@ const CATALOGUE: [HMeta; 18] = [
     HMeta { params: &[], inbound: Inb::None, responses: &[(200, Some("application/json"))] },
     HMeta { params: &[], inbound: Inb::None, responses: &[(200, Some("application/json"))] },
     HMeta { params: &[], inbound: Inb::Query2, responses: &[(200, Some("text/plain"))] },
+    // `Option<Query<Q>>`: still parses the query string (the fields of Q decide what is required)
+    HMeta { params: &[], inbound: Inb::Query, responses: &[(200, Some("text/plain"))] },
+    // `Option<JSON<J>>`
+    HMeta { params: &[], inbound: Inb::Json, responses: &[(200, Some("text/plain"))] },
+    // a path parameter next to a query struct with fields of the same names
+    HMeta { params: &["string"], inbound: Inb::Query3, responses: &[(200, Some("text/plain"))] },
+    HMeta { params: &[], inbound: Inb::Query3, responses: &[(200, Some("text/plain"))] },
 ];
 
 /// a hand-written schema (as a user would write for a type the derive does not cover), using `openapi::bool()`
@@ -110,6 +119,23 @@ pub struct Q2 {
     pub limit: Option<u32>,
 }
 async fn h_query2(_q: Query<Q2>) -> &'static str {
+    "ok"
+}
+#[derive(Debug, Clone, Serialize, Deserialize, ohkami::openapi::Schema)]
+pub struct Q3 {
+    pub id: u32,
+    pub p: Option<String>,
+}
+async fn h_opt_query(_q: Option<Query<Q>>) -> &'static str {
+    "ok"
+}
+async fn h_opt_json(_j: Option<JSON<J>>) -> &'static str {
+    "ok"
+}
+async fn h_p1_query3(_p: String, _q: Query<Q3>) -> &'static str {
+    "ok"
+}
+async fn h_query3(_q: Query<Q3>) -> &'static str {
     "ok"
 }
 async fn h_vec_component() -> JSON<Vec<Tg>> {
@@ -244,7 +270,11 @@ fn reg_op(acc: Option<HandlerSet>, path: &'static str, op: &OOp) -> HandlerSet {
         14 => reg_auth(acc, path, m, a, h_flags),
         15 => reg_auth(acc, path, m, a, h_vec_component),
         16 => reg_auth(acc, path, m, a, h_nested_vec_component),
-        _ => reg_auth(acc, path, m, a, h_query2),
+        17 => reg_auth(acc, path, m, a, h_query2),
+        18 => reg_auth(acc, path, m, a, h_opt_query),
+        19 => reg_auth(acc, path, m, a, h_opt_json),
+        20 => reg_auth(acc, path, m, a, h_p1_query3),
+        _ => reg_auth(acc, path, m, a, h_query3),
     }
 }
 
@@ -460,7 +490,7 @@ fn oapp_strategy(depth: u32) -> BoxedStrategy<OApp> {
         3 => prop_oneof![Just("users"), Just("items"), Just("a"), Just("v1"), Just("me")].prop_map(|s| Seg::S(s.to_string())),
         2 => prop_oneof![Just("id"), Just("name"), Just("p")].prop_map(|s| Seg::P(s.to_string())),
     ];
-    let op = (0usize..5, 0u8..18, prop_oneof![4 => Just(0u8), 1 => Just(1u8), 1 => Just(2u8)]).prop_map(|(m, handler, local_auth)| OOp { method: REG_METHODS[m], handler, local_auth });
+    let op = (0usize..5, 0u8..22, prop_oneof![4 => Just(0u8), 1 => Just(1u8), 1 => Just(2u8)]).prop_map(|(m, handler, local_auth)| OOp { method: REG_METHODS[m], handler, local_auth });
     let route = (vec(seg.clone(), 0..=3), vec(op, 1..=3)).prop_map(|(segs, ops)| OItem::Route { segs, ops });
     let tag = prop::option::weighted(0.3, 0u8..3);
     let auth = prop_oneof![4 => Just(0u8), 1 => Just(1u8), 1 => Just(2u8)];
@@ -505,7 +535,7 @@ fn collect_refs(v: &serde_json::Value, out: &mut Vec<String>) {
 impl Property for C15 {
     type Case = Case;
     const ID: &'static str = "C15";
-    const RULE: &'static str = "generated: applications assembled (hook H1) from a compiled catalogue of 18 handler signatures (0–2 path params of string/integer type, Query/JSON/URLEncoded/Multipart extractors over derived schemas, text/JSON/typed-status/Result returns, components used only below array items), nested mounts with param prefixes or at the root (`\"/\".By(child)`), openapi::Tag, JWT/BasicAuth fangs on any application or locally, handlers with fewer params than the route captures. Oracle: the bytes of the generated document parse as JSON; every embedded schema validates against the JSON Schema 2020-12 meta-schema (Python jsonschema sidecar); every $ref resolves; path/method pairs = flattened route table with :p → {p}; every {p} is a declared required path parameter and the operation's path parameters are the route's params in order; request body media type, query parameters and response statuses as the signature says; security present iff an auth fang is in the operation's chain, and iff the running application answers 401 to the operation's request sent without credentials; one request per documented operation is not 404. Non-trivial = an application with a mount, a path param and at least one extractor; distinct by case.";
+    const RULE: &'static str = "generated: applications assembled (hook H1) from a compiled catalogue of 22 handler signatures (0–2 path params of string/integer type, Query/JSON/URLEncoded/Multipart extractors over derived schemas, Option<Query<_>> and Option<JSON<_>>, a query struct whose field names coincide with path parameter names, text/JSON/typed-status/Result returns, components used only below array items), nested mounts with param prefixes or at the root (`\"/\".By(child)`), openapi::Tag, JWT/BasicAuth fangs on any application or locally, handlers with fewer params than the route captures. Oracle: the bytes of the generated document parse as JSON; every embedded schema validates against the JSON Schema 2020-12 meta-schema (Python jsonschema sidecar); every $ref resolves; path/method pairs = flattened route table with :p → {p}; every {p} is a declared required path parameter and the operation's path parameters are the route's params in order; request body media type, query parameters and response statuses as the signature says; security present iff an auth fang is in the operation's chain, and iff the running application answers 401 to the operation's request sent without credentials; one request per documented operation is not 404. Non-trivial = an application with a mount, a path param and at least one extractor; distinct by case.";
     const ASSUMPTIONS: &'static [&'static str] = &[
         "mounts get a first segment of their own (nodes shared between a mount and outside routes are C01's recorded finding)",
         "operationId uniqueness and tags are not checked (the statement does not list them)",
@@ -656,6 +686,7 @@ impl Property for C15 {
             let want_q: Vec<(&str, bool)> = match meta.inbound {
                 Inb::Query => vec![("a", true), ("n", false)],
                 Inb::Query2 => vec![("zone", true), ("name", true), ("after", true), ("limit", false)],
+                Inb::Query3 => vec![("id", true), ("p", false)],
                 _ => vec![],
             };
             // (the order of query parameters carries no meaning)
